@@ -328,6 +328,15 @@ def prop_e2e(case, rec):
 def e2e_cases(draw):
     c = draw(norm_rulesets())
     c['n'] = draw(st.integers(1, 25))
+    if draw(st.integers(0, 3)) == 0:
+        # long runs, also on Markov-heavy grammars (most walks pick the Markov structure and produce no word)
+        c['n'] = draw(st.sampled_from([300, 1200, 2500]))
+        m = c['model']
+        if any(s_ == 'M' for s_, _ in m['base']) and draw(st.booleans()):
+            rest = [[s_, p] for s_, p in m['base'] if s_ != 'M']
+            share = draw(st.sampled_from([0.5, 0.9, 0.97]))
+            tot = sum(p for _, p in rest) or 1.0
+            m['base'] = sorted([['M', share]] + [[s_, p / tot * (1 - share)] for s_, p in rest], key=lambda x: -x[1])
     return c
 
 
